@@ -41,7 +41,8 @@ ObsEnd == [o |-> "ConnEnd"]
 (*    digest |-> of the bytes sent, full |-> all declared bytes were sent,     *)
 (*    expect |-> BOOLEAN, answers |-> <<a1, a2>>,                              *)
 (*    dirGone |-> cache dir removed before the upload, diskFail |-> BOOLEAN,  *)
-(*    rst |-> the client aborted (RST instead of FIN) while the body was read]*)
+(*    rst |-> the client aborted (RST instead of FIN) while the body was read, *)
+(*    contFail |-> the write of the interim 100 Continue fails]               *)
 (* answer = [k |-> "Normal" | "Fetch" | "Drop" | "Panic", code, max (digits)]  *)
 
 InitState(cfg, reqs) ==
@@ -85,7 +86,10 @@ Step(s) ==
          ELSE IF q.kind = "known" /\ DecLeq(q.L, s.cfg.S) THEN To(s, "AutoCont", NoObs)
          ELSE To(s, "Ask", NoObs)
     \* ---- small declared body: read into memory without asking ----
-    [] s.pc = "AutoCont" -> To(s, "AutoRead", IF Q(s).expect THEN ObsResp(s.i, 100, "lib") ELSE NoObs)
+    \* (contFail: the connection is already broken when the interim 100 Continue is written; the write fails and the
+    \* connection task ends -- whatever had been prepared for the upload is gone with it)
+    [] s.pc = "AutoCont" -> IF Q(s).expect /\ Q(s).contFail THEN CloseDirty(s, ObsResp(s.i, 100, "lib"))
+                            ELSE To(s, "AutoRead", IF Q(s).expect THEN ObsResp(s.i, 100, "lib") ELSE NoObs)
     [] s.pc = "AutoRead" ->
          IF Q(s).full THEN To([s EXCEPT !.n = 1, !.mem = Q(s).L], "Call", NoObs)
          ELSE CountFinal(Close(s, ObsResp(s.i, 400, "lib")))                    \* Truncated
@@ -102,7 +106,8 @@ Step(s) ==
     [] s.pc = "Temp" ->
          IF Q(s).dirGone THEN CountFinal(CloseDirty(s, ObsResp(s.i, 500, "lib")))   \* ErrorSavingFile: no file was created
          ELSE To([s EXCEPT !.files = 1], "Cont2", NoObs)
-    [] s.pc = "Cont2" -> To(s, "Copy", IF Q(s).expect THEN ObsResp(s.i, 100, "lib") ELSE NoObs)
+    [] s.pc = "Cont2" -> IF Q(s).expect /\ Q(s).contFail THEN CloseDirty(s, ObsResp(s.i, 100, "lib"))
+                         ELSE To(s, "Copy", IF Q(s).expect THEN ObsResp(s.i, 100, "lib") ELSE NoObs)
     [] s.pc = "Copy" ->
          LET q == Q(s) a == q.answers[1] IN
          IF q.diskFail THEN CountFinal(CloseDirty(s, ObsResp(s.i, 500, "lib")))     \* ErrorSavingFile: the temp file is removed
